@@ -103,7 +103,7 @@ var scDBOps = []string{"Bytes", "Marshal", "BytesExists", "BytesExistsMiss", "By
 var scUpdateOps = []string{"Marshal", "Bytes", "DescMarshal", "DescVerify", "CallerEditsPayload", "DescZeroTimeMarshal"}
 var scPkcs7Ops = []string{"Verify", "VerifyOther", "HasCertificate"}
 var scAuthcodeOps = []string{"Verify", "VerifyOther"}
-var scListOps = []string{"Bytes", "Exists", "ExistsMiss", "ExistsInList", "CmpHeader"}
+var scListOps = []string{"Bytes", "Exists", "ExistsMiss", "ExistsInList", "CmpHeader", "ExistsInListLong", "ExistsInListLongMiss"}
 
 func (e *schedEngine) Gen(seed uint64, tier string, run int) *Trace {
 	r := NewR(seed, e.Name(), run)
@@ -162,7 +162,7 @@ func (e *schedEngine) Gen(seed uint64, tier string, run int) *Trace {
 		c.DB = r.Intn(4)
 		kinds = scAuthcodeOps
 	case "list":
-		c.DB = Pick(r, []int{0, 1, 2, 17, 40}) // up to 3+DB entries
+		c.DB = Pick(r, []int{0, 1, 2, 17, 40, 100, 100}) // up to 3+DB entries
 		kinds = scListOps
 	case "update":
 		c.Signers = []int{Pick(r, []int{0, 1, 0, 1, 8, 12})}
@@ -526,6 +526,18 @@ func (e *schedEngine) build(c scCfg, x *X, plane *Plane) (mk func() *scObject) {
 			sub := signature.NewSignatureList(dbTypes[0].G)
 			sub.AppendBytes(dbOwners[0], dbData(0))
 			sub.AppendBytes(dbOwners[1], dbData(1))
+			// long queries: every entry of the list, and the same with one entry that is not enrolled somewhere in the middle
+			long := signature.NewSignatureList(dbTypes[0].G)
+			longMiss := signature.NewSignatureList(dbTypes[0].G)
+			for k, sd := range l.Signatures {
+				long.AppendBytes(sd.Owner, append([]byte(nil), sd.Data...))
+				if k == len(l.Signatures)/3 {
+					h := sha256.Sum256([]byte("not enrolled"))
+					longMiss.AppendBytes(sd.Owner, h[:])
+				} else {
+					longMiss.AppendBytes(sd.Owner, append([]byte(nil), sd.Data...))
+				}
+			}
 			return &scObject{dumpRoot: l, do: func(op scOp) []byte {
 				switch op.Op {
 				case "Bytes":
@@ -540,6 +552,10 @@ func (e *schedEngine) build(c scCfg, x *X, plane *Plane) (mk func() *scObject) {
 					return scResult([]byte(fmt.Sprint(l.ExistsInList(sub))), nil)
 				case "CmpHeader":
 					return scResult([]byte(fmt.Sprint(l.CmpHeader(sub))), nil)
+				case "ExistsInListLong":
+					return scResult([]byte(fmt.Sprint(l.ExistsInList(long))), nil)
+				case "ExistsInListLongMiss":
+					return scResult([]byte(fmt.Sprint(l.ExistsInList(longMiss))), nil)
 				}
 				harnessf("sched: list op %q", op.Op)
 				return nil
@@ -640,6 +656,22 @@ func (e *schedEngine) build(c scCfg, x *X, plane *Plane) (mk func() *scObject) {
 				}
 			}); pv != nil {
 				panic(pv)
+			}
+			if c.DB%2 == 1 {
+				// the descriptor as a caller gets it back from storage: parsed out of a buffer, and the caller goes on to use
+				// that buffer for the next thing it reads
+				var parsed signature.EFIVariableAuthentication2
+				buf := bytes.NewBuffer(append([]byte(nil), upd.Bytes()...))
+				backing := buf.Bytes()
+				if err := parsed.Unmarshal(buf); err != nil {
+					harnessf("sched: parse descriptor: %v", err)
+				}
+				for k := range backing {
+					backing[k] = 0xEE
+				}
+				buf.Reset()
+				buf.WriteString("the next variable the caller reads")
+				desc = &parsed
 			}
 			type both struct {
 				D *signature.EFIVariableAuthentication2
